@@ -22,8 +22,21 @@ QUICK_SHAPES = [(2, 2), (3, 2), (2, 3)]
 THOROUGH_SHAPES = QUICK_SHAPES + [(1, 2), (3, 3), (4, 2), (2, 4)]
 
 
-def job(label, n, Kc, timeout_q=20.0, max_paths=3000):
+def _long_pattern(N, m):
+    """rows 0..m-2 spread aperiodically over positions 0..N-2, row m-1 exactly once, in the last position (a trailing partial block
+    then holds a row of its own, whose gradient is checked entry-wise)"""
+    from .c01 import long_pattern
+    pat = [r % (m - 1) for r in long_pattern(N, m)] if m > 1 else [0] * N
+    pat[0] = 0
+    pat[-1] = m - 1
+    return pat
+
+
+def job(label, n, Kc, timeout_q=20.0, max_paths=3000, long_n=None):
+    """long_n: long_n rows drawn from n distinct symbolic rows (see checks.c01); by the chain rule the derivative of the score with
+    respect to the independent entries of distinct row r is the SUM of G_ik - G_iK over the positions i holding that row."""
     loader.install()
+    pattern = _long_pattern(long_n, n) if long_n else None
     res = {"paths": 0, "queries": 0, "obligations": [], "violations": [], "validated": 0, "witnesses": 0, "samples": []}
     st = {}
 
@@ -35,6 +48,9 @@ def job(label, n, Kc, timeout_q=20.0, max_paths=3000):
         core.CTX.strict = True      # differentiability region: ties (TV sign changes, MMD zero distances) excluded
         P, base, A = cg.sym_inputs(kind, n, Kc, eps=gem.epsilon)
         st.update(stub=stub, gem=gem, kind=kind, ovo=ovo, base=base)
+        if pattern is not None:
+            idx = np.asarray(pattern)
+            P, A = P[idx], (None if A is None else A[np.ix_(idx, idx)])
         return P, A
 
     def body(arg):
@@ -43,14 +59,15 @@ def job(label, n, Kc, timeout_q=20.0, max_paths=3000):
         S, G = gem.evaluate(P.copy(), None if A is None else A.copy(), return_grad=True)
         S0 = gem.evaluate(P.copy(), None if A is None else A.copy(), return_grad=False)
         return S, G, S0, P
+    n_rows = long_n or n
 
     ex = Explorer(max_paths=max_paths)
     for out, pc, trace in ex.run(body, setup):
         res["paths"] += 1
         kind, ovo = st["kind"], st["ovo"]
-        tag = f"{label}/n{n}K{Kc}/path{res['paths']}"
+        tag = f"{label}/n{n}K{Kc}{'/N%d' % long_n if long_n else ''}/path{res['paths']}"
         if isinstance(out, PathError):
-            _path_error(res, out, pc, tag, label, n, Kc, "grad")
+            _path_error(res, out, pc, tag, label, n, Kc, "grad", pattern)
             continue
         S, G, S0, P = out
         S = _scalar(S)
@@ -62,17 +79,17 @@ def job(label, n, Kc, timeout_q=20.0, max_paths=3000):
         if v == "sat":
             res["witnesses"] += 1
         G = np.asarray(G, dtype=object)
-        ok_shape = tuple(G.shape) == (n, Kc)
+        ok_shape = tuple(G.shape) == (n_rows, Kc)
         res["obligations"].append({"name": tag + "/grad.shape==P.shape", "verdict": "unsat" if ok_shape else "sat", "how": "syntactic"})
         if not ok_shape:
-            res["violations"].append({"signature": f"{PROP}:{_base(label)}:shape", "what": f"{label}: gradient shape {G.shape} != {(n, Kc)}",
-                                      "replay": {"label": label, "n": n, "K": Kc, "model": {}, "kind": "shape"}})
+            res["violations"].append({"signature": f"{PROP}:{_base(label)}:shape", "what": f"{label}: gradient shape {G.shape} != {(n_rows, Kc)}",
+                                      "replay": {"label": label, "n": n, "K": Kc, "model": {}, "kind": "shape", "pattern": pattern}})
             continue
         o = harness.prove_zero(S - S0, pc, timeout_s=timeout_q, name=tag + "/score(grad)==score(nograd)")
         res["queries"] += 1
         res["obligations"].append(_strip(o))
         if o["verdict"] == "sat":
-            _report(res, label, n, Kc, o, "score-differs-with-return_grad", tag, pc)
+            _report(res, label, n, Kc, o, "score-differs-with-return_grad", tag, pc, pattern)
         flatG = [x if harness.nonfinite(x) else core.to_rat(x) for x in G.reshape(-1)]
         dres = harness.check_defined([S] + flatG, pc, name=tag + "/defined")
         if dres["verdict"] == "sat" and dres.get("model") is None and wmodel is not None:
@@ -80,14 +97,17 @@ def job(label, n, Kc, timeout_q=20.0, max_paths=3000):
         res["queries"] += dres.get("n_guards", 0)
         res["obligations"].append(_strip(dres))
         if dres["verdict"] == "sat":
-            _report(res, label, n, Kc, dres, "undefined", tag, pc)
+            _report(res, label, n, Kc, dres, "undefined", tag, pc, pattern)
         if any(harness.nonfinite(x) for x in [S] + flatG):
             continue
         for i in range(n):
             for k in range(Kc - 1):
                 x = st["base"][i][k]
                 dS = diff.Differ(x.f[0][0], uf_grad=st["stub"].grad_table).drat(S)
-                lhs = core.to_rat(G[i, k]) - core.to_rat(G[i, Kc - 1])
+                if pattern is None:
+                    lhs = core.to_rat(G[i, k]) - core.to_rat(G[i, Kc - 1])
+                else:
+                    lhs = core.add_many([core.to_rat(G[pos, k]) - core.to_rat(G[pos, Kc - 1]) for pos in range(n_rows) if pattern[pos] == i])
                 o = harness.prove_zero(lhs - dS, pc, timeout_s=timeout_q, name=tag + f"/dS/dx[{i},{k}]==G[{i},{k}]-G[{i},{Kc - 1}]")
                 res["queries"] += 1
                 res["obligations"].append(_strip(o))
@@ -95,8 +115,8 @@ def job(label, n, Kc, timeout_q=20.0, max_paths=3000):
                     res["samples"].append({"obligation": o["name"], "verdict": o["verdict"], "how": o.get("how"), "pc_size": len(pc),
                                            "grad_term": repr(lhs)[:140]})
                 if o["verdict"] == "sat":
-                    _report(res, label, n, Kc, o, "grad", tag, pc)
-        if wmodel is not None and kind != "w":
+                    _report(res, label, n, Kc, o, "grad", tag, pc, pattern)
+        if wmodel is not None and kind != "w" and pattern is None:
             ok = _validate(label, n, Kc, kind, S, flatG, wmodel)
             if ok is not None:
                 res["validated"] += 1
@@ -196,14 +216,14 @@ def job_clip(label, n, Kc, max_paths=600, timeout_q=15.0):
     return res
 
 
-def _path_error(res, err, pc, tag, label, n, Kc, kind):
+def _path_error(res, err, pc, tag, label, n, Kc, kind, pattern=None):
     """the engine could not execute this path: concrete comparison at a witness of the path instead"""
     v, wmodel = harness.reachable(pc, timeout_s=10.0)
     if v == "unsat":
         return
     res["obligations"].append({"name": tag + "/path-error", "verdict": "inconclusive", "how": repr(err)[:200]})
     if v == "sat":
-        rep = {"label": label, "n": n, "K": Kc, "kind": kind, "model": {k: str(x) for k, x in wmodel.items() if k[0] in "pam"}}
+        rep = {"label": label, "n": n, "K": Kc, "kind": kind, "pattern": pattern, "model": {k: str(x) for k, x in wmodel.items() if k[0] in "pam"}}
         try:
             bad = replay(rep)
         except Exception as e:
@@ -227,11 +247,14 @@ def _strip(o):
     return {k: v for k, v in o.items() if k != "model"}
 
 
-def _report(res, label, n, Kc, o, what, tag, pc=None):
+def _report(res, label, n, Kc, o, what, tag, pc=None, pattern=None):
     model = o.get("model")
     if not model:
         res["obligations"][-1]["verdict"] = "inconclusive"
         return
+    sig = f"{PROP}:{_base(label)}:{what}"
+    if any(v["signature"] == sig for v in res["violations"]):
+        return   # already reproduced on the real code for this objective in this job: the obligation stays 'sat'
     cands = [{k: str(v) for k, v in model.items() if k[0] in "pam"}]
     # the solver's point may be degenerate for the abstracted parts (transport plans, radicals): also try a few generic
     # points that satisfy the same path condition -- the obligation failed for the whole path, any of them may show it
@@ -242,15 +265,16 @@ def _report(res, label, n, Kc, o, what, tag, pc=None):
             break
         m = dict(cands[0])
         for i in range(n):
-            w = [rng.uniform(0.05, 1.0) for _ in range(Kc)]
+            # alternately concentrated around uniform and spread over the whole simplex (Dirichlet(1))
+            w = [rng.uniform(0.05, 1.0) for _ in range(Kc)] if len(cands) % 2 else [max(1e-3, rng.expovariate(1.0)) for _ in range(Kc)]
             t = sum(w)
             for k in range(Kc - 1):
-                m[f"p_{i}_{k}"] = str(Fraction(w[k] / t).limit_denominator(1000))
+                m[f"p_{i}_{k}"] = str(Fraction(min(max(w[k] / t, 2e-3), 1 - 2e-3)).limit_denominator(1000))
         ok = harness.pc_holds(pc or [], {k: Fraction(v) for k, v in m.items()})
         if ok is True or (ok is None and not pc):
             cands.append(m)
     for m in cands:
-        rep = {"label": label, "n": n, "K": Kc, "kind": "grad", "model": m}
+        rep = {"label": label, "n": n, "K": Kc, "kind": "grad", "model": m, "pattern": pattern}
         if replay(rep):
             res["violations"].append({"signature": f"{PROP}:{_base(label)}:{what}", "what": f"{label}: {what} at n={n},K={Kc} ({o['name']})", "replay": rep})
             return
@@ -279,7 +303,11 @@ def replay(rep, verbose=False):
     gem, kind, ovo = cg.build(label, symbolic=False)
     model = {k: Fraction(v) for k, v in rep.get("model", {}).items()}
     P, A = cg.concrete_inputs(model, n, Kc, kind)
+    pat = rep.get("pattern")
     if rep.get("kind") == "shape":
+        if pat:
+            A = None if A is None else A[np.ix_(pat, pat)]
+            n = len(pat)
         S, G = gem.evaluate(np.full((n, Kc), 1.0 / Kc), None if A is None else A, return_grad=True)
         return tuple(np.shape(G)) != (n, Kc)
     if rep.get("kind") == "clip":
@@ -291,17 +319,28 @@ def replay(rep, verbose=False):
     clipped_mode = rep.get("kind") == "grad-clipped"
     if not clipped_mode and (P.min() <= 1e-6 or P.max() >= 1 - 1e-6):
         return False
-    for Ac in cg.affinity_candidates(kind, n, A):
+    if rep.get("affinity") is not None:
+        cands_A = [np.asarray(rep["affinity"], dtype=float)]
+    else:
+        cands_A = cg.affinity_candidates(kind, n, A, extra=(40 if kind == "w" and n >= 3 else 0))
+    for Ac in cands_A:
+        if pat:
+            bad = _replay_fd(gem, P[np.asarray(pat)], None if Ac is None else Ac[np.ix_(pat, pat)], len(pat), Kc, verbose, rows=sorted({0, len(pat) // 2, len(pat) - 1}))
+            if bad:
+                return True
+            continue
         if clipped_mode:
             bad = _replay_clipped(gem, P, Ac, n, Kc, verbose)
         else:
             bad = _replay_fd(gem, P, Ac, n, Kc, verbose)
         if bad:
+            if Ac is not None and kind == "w":
+                rep["affinity"] = np.asarray(Ac).tolist()   # the cost matrix that exhibits it (recorded in the replay file)
             return True
     return False
 
 
-def _replay_fd(gem, P, A, n, Kc, verbose):
+def _replay_fd(gem, P, A, n, Kc, verbose, rows=None):
     with np.errstate(all="ignore"):
         S, G = gem.evaluate(P.copy(), A, return_grad=True)
     if not (np.isfinite(S) and np.all(np.isfinite(np.asarray(G, dtype=float)))):
@@ -314,7 +353,7 @@ def _replay_fd(gem, P, A, n, Kc, verbose):
             print("score with grad", S, "without", S0)
         return True
     worst = 0.0
-    for i in range(n):
+    for i in (range(n) if rows is None else rows):
         for k in range(Kc - 1):
             h = 1e-6 * min(P[i, k], P[i, Kc - 1], 1.0)
             Pp, Pm = P.copy(), P.copy()
@@ -395,6 +434,17 @@ def jobs(tier):
             out.append({"name": f"{lab}/clip/n{n}K{Kc}", "target": "checks.c02:job_clip",
                         "kwargs": dict(label=lab, n=n, Kc=Kc, timeout_q=(15.0 if q else 120.0)),
                         "timeout": (200 if q else 2400)})
+    for lab in cg.CLASSES:
+        kind = cg.CLASSES[lab][2:][0]
+        if kind == "w":
+            continue
+        for N in ([67, 300] if q else [67, 131, 300, 1031]):
+            if kind == "mmd" and N > 131:
+                continue
+            if q and (lab in ("H2-ovo", "MMD-ovo") or (lab == "H2-ova" and N > 67)):
+                continue   # minutes: thorough tier
+            out.append({"name": f"long/{lab}/N{N}/rows3K2", "target": "checks.c02:job",
+                        "kwargs": dict(label=lab, n=3, Kc=2, long_n=N, timeout_q=(20.0 if q else 300.0)), "timeout": (300 if q else 2400)})
     out.append({"name": "engine-selftest", "target": "symx.selftest:job", "kwargs": dict(n_cases=300 if tier == "quick" else 1500, seed=0), "timeout": 600})
     return out
 
